@@ -116,6 +116,7 @@ Inductive case := HC (t : hty) (v : val) (calls : list raw) (bs : list fchunk).
 Definition check (c : case) : bool :=
   match c with
   | HC t v calls bs =>
+      wtb t v &&    (* the value lies in the domain of the theorems *)
       match match_calls (stream t v) calls with Some [] => true | _ => false end &&
       match match_atoms (fstream t v) (flat_map expand bs) with Some [] => true | _ => false end
   end.
